@@ -10,6 +10,7 @@ import Desync.Model.Mode
 import Desync.Model.Protocol
 import Desync.Model.VerifyIndex
 import Desync.Hash.Sha2
+import Desync.Model.Chunk
 
 namespace Driver
 open Desync
@@ -239,6 +240,24 @@ def cmdVerifyIndex (a : Args) : String :=
     | .ok => "ok" | .mismatch => "mismatch" | .sizeMismatch => "size" | .panic => "panic"
   | _, _ => "bad-op"
 
+/-- `chunk.fromstorage alg= id= raw= dec=ok:<hex>|err comp=0|1 skip=0|1` :
+    `NewChunkFromStorage` followed by `Data()`; `dec` is what `Decompress(raw)` returns -/
+def cmdFromStorage (a : Args) : String :=
+  match a.bytes "id", a.bytes "raw" with
+  | some id, some raw =>
+    let decRes : Option Bytes :=
+      let d := a.get "dec"
+      if d.startsWith "ok:" then ofHex ((d.drop 3).toString) else none
+    let dec : Bytes → Option Bytes := fun _ => decRes
+    let convs : List Conv := if a.bool "comp" then [.compressor] else []
+    match newChunkFromStorage (digestOf (a.get "alg")) dec id raw convs (a.bool "skip") with
+    | .invalid => "invalid"
+    | .ok c =>
+      match (c.getData dec).1 with
+      | some b => "ok " ++ toHex b
+      | none => "ok nodata"
+  | _, _ => "bad-op"
+
 def runLine (l : String) : String :=
   match l.splitOn " " with
   | [] => "bad-op"
@@ -249,6 +268,7 @@ def runLine (l : String) : String :=
     | "idx.encode" => cmdIdxEncode a
     | "chunk.all" => cmdChunkAll a
     | "hash" => cmdHash a
+    | "chunk.fromstorage" => cmdFromStorage a
     | "verify.index" => cmdVerifyIndex a
     | "fmt.next" => cmdFmtNext a
     | "arch.untar" => cmdUntar a
